@@ -362,7 +362,8 @@ CLAIMS.update({
                 'COMPOSITION WITH FORWARD-TSN (proof of the safety core, Props/C07net.lean, Model/NetSysPR.lean = NetSys with streams of any reliability policy and a wire history that also holds every FORWARD-TSN / I-FORWARD-TSN a gather emitted; deliver hands the receiver any history item, DATA or FORWARD-TSN, any number of times in any order, never = loss): C07_netsys_skip_is_safe - in every reachable state, at any point inside a packet, for EVERY FORWARD-TSN / I-FORWARD-TSN of the history (first copy or late duplicate): every chunk ever sent with a TSN at or below its new cumulative TSN, on any stream, is abandoned by the sender or was handed to the reassembly queue of its stream, and every entry names an abandoned (for FORWARD-TSN: ordered) chunk at or below that point; C07_netsys_skip_all_pushed - with per-stream FIFO TSN assignment (decidable TsnFifo on the run, what C17 proves of the pending queue) every fragment written on the named stream in a message before the named one was sent and is abandoned or was handed over: the allPushed premise of C07_reasm_skip_then_deliver holds in the composed system. Hypotheses (decidable RunOk): MTU < 2^30, PR negotiated, < 2^31 chunks in flight / TSNs assigned, and SackSound - no SACK the sender processes acknowledges cumulatively more than the receiver\'s cumulative point (C05_assoc_sack_sound proves it of the real receive half; gap blocks, a_rwnd and RACK marks stay arbitrary: the advanced ack point stops at the first non-abandoned chunk, gap-acked or not). The hypothesis is necessary: C07_netsys_unsound_sack_witness decides a run where one unsound SACK makes the receiver skip a reliable message it never received. '
                 'RECEIVE HALF WITH SKIPS (proof, Props/C07net.lean, lemmas Proofs/Receiver/PrefixSkip*.lean - the receive-side simulation of C01_receiver_prefix redone with FORWARD-TSN): C07_receiver_skip_then_deliver - ordered DATA, ANY op list whose packets bundle DATA fragments of the peer\'s universe and FORWARD-TSN chunks in any order, duplicated, lost, with reads of any size in between, such that every FORWARD-TSN the receiver TAKES satisfies the honest-sender premise for the stream (each entry naming it is the SSN of a message L, every non-abandoned message up to L has had all fragments handed to the reassembly queue - the content of C07_netsys_skip_all_pushed), fewer than 2^15 messages on the stream, no entry limit: the successful reads are a strictly increasing list of messages (a subsequence of the writes, each at most once, whole; duplicate filter, stale and repeated FORWARD-TSN included) and every non-abandoned message handed over completely has been read or sits complete in the queue. C07_netsys_nothing_lost_partial transports this to every run of NetSysPR (readsOn, pushed) from two premises that are STATED, NOT DERIVED: the universe link (every delivered DATA item is a fragment of a universe whose message list is the stream\'s writes, its TSN naming no other fragment - Proofs/NetSys/Data.lean derives this for reliable runs, not redone for NetSysPR) and the FORWARD-TSN premise in the receiver\'s vocabulary (C07_netsys_skip_all_pushed proves it in the sender\'s; the translation needs the same link). '
                 'END TO END (proof, Props/C07net.lean): C07_netsys_nothing_lost - for every run of NetSysPR whose premises are DECIDABLE RUN PREDICATES only (RunOk incl. sound SACKs; OrdOnly = ordered streams of any reliability policy, no reset; DATA / FORWARD-TSN; no entry limit; < 2^31 chunks written; message-contiguous per-stream FIFO selection SelContig and the same FIFO read off the TSN offsets, FifoU; fewer than 2^15 messages written on the stream), on every stream the reads are a strictly increasing selection of the application\'s own writes (a subsequence in write order, each at most once, whole) and every message the sender has not abandoned by the end of the run and all of whose fragments were handed to the reassembly queue has been read or sits complete in the queue. Both formerly stated premises are derived: the universe link incl. TSN injectivity of moved fragments (Proofs/NetSys/PRUniv*.lean, PRLostGood.lean; C07_netsys_nothing_lost_fwdok_partial is the intermediate form with FwdOk still stated) and the honest-sender premise of every FORWARD-TSN the receiver takes (PRLostFwd.lean, from the composed invariant behind C07_netsys_skip_is_safe, moved_ident, abandonment monotonicity). Non-vacuity: every premise decided on the run opsX for both of its streams. '
-                'NOT covered by theorems: FifoU from SelContig (taken as a decidable premise), the PREFIX corollary for streams never given a partially reliable policy (the conclusion gives a strictly increasing D, not gap-freeness), read-after-drain, the sliding D15 window (the theorems ask for < 2^15 messages on the stream), I-DATA / I-FORWARD-TSN end to end, unordered messages and mixed streams in the run theorems, stream resets (D24). '
+                'C07_netsys_nothing_lost_fifo: the same statement with the two selection premises replaced by SelFifo (every gather takes the oldest pending chunk - what the pending queue does for ordered-only traffic, C17_ordered_only_fifo); SelContig and FifoU are DERIVED from it for ordered streams of any reliability policy (Proofs/NetSys/PRFifo.lean, from C01_fifo_tsn_order). ' +
+                'NOT covered by theorems: the PREFIX corollary for streams never given a partially reliable policy (the conclusion gives a strictly increasing D, not gap-freeness), read-after-drain, the sliding D15 window (the theorems ask for < 2^15 messages on the stream), I-DATA / I-FORWARD-TSN end to end, unordered messages and mixed streams in the run theorems, stream resets (D24). '
                 'SYSTEM LEVEL (exploration, synctest e2e): ' + CLAIMS['C07']['text'],
         'note': SENDER_NOTE + ' The FORWARD-TSN comparison is on the decoded chunk (new cumulative TSN, stream list sorted by stream id). ' + E2E_NOTE,
         'technique': 'Lean 4 proof (invariant AdvInv over op lists, serial arithmetic by bv_omega, fold lemmas for the stream lists) + model/implementation differential replay of a direct-driven '
